@@ -15,7 +15,7 @@ pub const ASCII_WORDS: &[&str] = &[
 ];
 pub const HYPHEN_WORDS: &[&str] = &[
     "foo-bar", "a-b-c", "--x", "x-", "-", "--", "can-be-split", "-foo", "foo--bar", "a-1", "1-2-3", "x-\u{4f60}", "\u{e9}-\u{e9}", "a-", "self-",
-    "--foo-bar", "b-!", "jack-in-the-box",
+    "--foo-bar", "b-!", "jack-in-the-box", "\u{5bbd}-a\u{301}", "a\u{301}-\u{4f60}", "foo\u{2010}bar",
 ];
 pub const UNI_WORDS: &[&str] = &[
     "\u{4f60}\u{597d}", "\u{4e16}\u{754c}", "\u{4f60}", "caf\u{e9}", "\u{e9}t\u{e9}", "\u{1f602}", "\u{1f602}\u{1f60d}", "e\u{301}", "\u{301}",
@@ -28,6 +28,9 @@ pub const UNI_WORDS: &[&str] = &[
 pub const ZW_WORDS: &[&str] = &[
     "ab\u{7f}", "\u{7f}x", "a\u{7f}\u{7f}b", "x\u{9f}y", "a\u{200b}b", "hy\u{ad}phen", "e\u{301}e", "\u{7f}", "a\u{80}", "\u{2060}z", "x\u{fe0f}", "\u{7f}\u{7f}",
     "foo\u{7f}bar", "q\u{300}\u{301}",
+    // display width = number of chars although not every char is one column wide (a wide and a zero-width character
+    // cancel out), unevenly distributed around a hyphen split point
+    "\u{5bbd}-a\u{301}", "\u{5bbd}\u{5bbd}-a\u{301}\u{301}b", "a\u{301}-\u{4f60}", "\u{7f}x-\u{4f60}", "\u{4f60}\u{7f}-ab",
 ];
 pub const CTRL_WORDS: &[&str] = &["\t", "a\tb", "\r", "a\rb", "\u{0}", "\u{b}", "\u{c}", "\u{2028}", "a\u{7}", "ab\u{7f}", "\u{7f}x", "a\u{1}b", "x\u{9f}"];
 pub const PUNCT_WORDS: &[&str] = &["[", "]", "( a )", "[ foo ]", "bar !", "\u{ab}", "\u{bb}", "a/b", "http://x.y/z", "$1", "50%", "a,b", "\"q\""];
